@@ -3,7 +3,10 @@
 R1  score order by role (def-use roles of the match_score tuple - of EVERY
     return of a real score; literal components are decided from the
     emptiness facts that dominate the return -, sentinel,
-    quality()/best_match() wiring)
+    quality()/best_match() wiring); which main type / subtype pairs match
+    at all, and how the two leading components rank them, is decided by
+    interpreting match_score() on {'*', 'a', 'b'}^4 (_TypeModel): a wildcard
+    on EITHER side matches, two different concrete tokens never do
 R2  documented errors only (E5 summaries of quality/best_match, q validation)
 R3  cache coherence of falcon.media.Handlers over its whole MRO, including the
     running interpreter's UserDict / MutableMapping source (parsed, never
@@ -22,8 +25,14 @@ R8  q never decides WHETHER a range matches: the not-matching returns of
     match_score() and the range selection of _parse_media_ranges()/quality()
     do not read `quality` (shared with C04: r8_q_never_decides_match)
 R9  the resolver compares the requested type with the registered keys in one
-    case form - no one-sided lower()/upper()/casefold() (shared with C12:
+    case form - no one-sided lower()/upper()/casefold(), whether the requested
+    type is folded whole or re-assembled from folded pieces (shared with C12:
     r9_same_case_form)
+R10 client_accepts() / client_prefers() answer by negotiation over the whole
+    Accept header: the call is wired (type(s), header), the quality is
+    compared strictly with zero, and an answer given without the call is
+    guarded by the EQUALITY of the whole header with the requested type or
+    '*/*' - a substring / prefix / piece test deciding it is a violation
 
 R4 also decides the escape set of the resolver closure (through the bridge
 helper _best_match and mediatypes.best_match): only HTTPUnsupportedMediaType
@@ -847,10 +856,10 @@ class _TState:
 
 
 class _TOutcome:
-    __slots__ = ('ret', 'kind', 'env', 'last', 'tests')
+    __slots__ = ('ret', 'kind', 'env', 'last', 'tests', 'cell')
 
-    def __init__(self, ret, kind, st: _TState):
-        self.ret, self.kind, self.env, self.last, self.tests = ret, kind, st.env, st.last, st.tests
+    def __init__(self, ret, kind, st: _TState, cell):
+        self.ret, self.kind, self.env, self.last, self.tests, self.cell = ret, kind, st.env, st.last, st.tests, cell
 
 
 def _always_returns(stmts) -> bool:
@@ -1122,7 +1131,7 @@ class _TypeModel:
         if isinstance(s, ast.Return):
             if s.value is None:
                 raise _OutOfModel('bare return')
-            self.out.append(_TOutcome(s, 'score' if _is_real_score(s.value) else 'sentinel', x))
+            self.out.append(_TOutcome(s, 'score' if _is_real_score(s.value) else 'sentinel', x, dict(self.cell)))
             return []
         if isinstance(s, (ast.For, ast.While)):
             if isinstance(s, ast.For):
@@ -1173,6 +1182,7 @@ def _type_table(run, ms: Func, roles: _Roles, other: str, comp_with_role, lower)
         if e is None:
             return None
         try:
+            tm.cell = o.cell                # the component is read in the combination this return was reached in
             v = tm.ev(e, dict(o.env))
         except _OutOfModel as why:
             raise UnknownIdiom('match_score: %s component %s (%s)' % (ROLE_DOC[role], short(e, 40), why))
@@ -1626,7 +1636,7 @@ def _positivity(test, truth: bool, is_q) -> str:
         t = implied(test, truth, lambda e, a=a: e is a)
         if t is None:
             continue
-        if isinstance(a, ast.Name):
+        if not isinstance(a, ast.Compare):         # the quantity itself (a name, or the call that computes it) used as a truth value
             if t:
                 out = 'strict'
             continue
@@ -2749,12 +2759,15 @@ def r4_resolution(run):
         out = []
         if n.kind == 'stmt' and isinstance(n.ast, (ast.Assign, ast.AnnAssign, ast.AugAssign)):
             tgts = n.ast.targets if isinstance(n.ast, ast.Assign) else [n.ast.target]
+            if any(isinstance(x, ast.Name) and x.id == mt and isinstance(x.ctx, ast.Store) for t in tgts if not is_mt(t) for x in ast.walk(t)):
+                raise UnknownIdiom('resolver: requested type rebound by %s' % short(n.ast, 80))
             if any(is_mt(t) for t in tgts):
                 v = getattr(n.ast, 'value', None)
                 if isinstance(n.ast, ast.Assign) and isinstance(v, ast.Name) and v.id == dflt:
                     out.append('DEFAULT')
-                elif isinstance(n.ast, ast.Assign) and _pure_case_fold(v, is_mt):
-                    pass        # `mt = mt.lower()`: emptiness and "is */*" are unchanged; whether folding is right is R9's verdict
+                elif isinstance(n.ast, ast.Assign) and _same_text_modulo_case(res.node, n.ast, mt):
+                    pass        # `mt = mt.lower()` / a re-assembled partition with folded pieces: the same text up to letter case -
+                    #             emptiness and "is */*" are unchanged; whether folding is right is R9's verdict
                 else:
                     raise UnknownIdiom('resolver: requested type rebound by %s' % short(n.ast, 80))
         if n.id in use_ids:
@@ -3522,50 +3535,213 @@ _R9_WITNESS = "handlers['application/vnd.Acme.Order.v2+json'] = h; a request / r
               '(get_media() raises HTTPUnsupportedMediaType, render_body() cannot serialize)'
 
 
-def _pure_case_fold(e, is_base) -> bool:
-    """base.lower() / base.strip-free chain of no-argument case folds"""
-    n = 0
-    while isinstance(e, ast.Call) and isinstance(e.func, ast.Attribute) and e.func.attr in CASE_FOLDS and not e.args and not e.keywords:
-        e = e.func.value
-        n += 1
-    return n > 0 and is_base(e)
-
-
-def _text_derived(e, names: Set[str]) -> bool:
-    """`e` is one of `names` or text computed from it: method-call chains, subscripts, `or`/`and`/conditional alternatives,
-    str(x) / format arguments are NOT followed (a message built from the type is not the type)"""
+def _text_derived(e, names: Set[str], base=None) -> bool:
+    """`e` is one of `names` or text BUILT from it: method-call chains, subscripts / slices, `or`/`and`/conditional
+    alternatives, concatenation (+, %), f-strings, `sep.join(pieces)`, `'..'.format(pieces)`, displays and comprehensions
+    of pieces, str()/map()/tuple()/list()/reversed()/sorted()/filter() of pieces.  The arguments of any OTHER call are not
+    followed (what a helper returns for the type is not known to be the type).  `base`: an optional
+    predicate naming further source expressions (an attribute read)."""
     e = _unwrap_cast(e)
+    if base is not None and base(e):
+        return True
     if isinstance(e, ast.Name):
         return e.id in names
     if isinstance(e, ast.Call) and isinstance(e.func, ast.Attribute):
-        return _text_derived(e.func.value, names)
+        if e.func.attr in ('join', 'format') and any(_text_derived(a, names, base) for a in list(e.args) + [k.value for k in e.keywords]):
+            return True
+        if isinstance(e.func.value, ast.Name) and e.func.value.id == 'str' and e.func.attr in CASE_FOLDS and e.args:
+            return _text_derived(e.args[0], names, base)                      # str.lower(x)
+        return _text_derived(e.func.value, names, base)
+    if isinstance(e, ast.Call) and isinstance(e.func, ast.Name) and e.func.id in _PIECE_CALLS:
+        return any(_text_derived(a, names, base) for a in e.args)
     if isinstance(e, ast.Subscript):
-        return _text_derived(e.value, names)
+        return _text_derived(e.value, names, base)
     if isinstance(e, ast.BoolOp):
-        return any(_text_derived(v, names) for v in e.values)
+        return any(_text_derived(v, names, base) for v in e.values)
     if isinstance(e, ast.IfExp):
-        return _text_derived(e.body, names) or _text_derived(e.orelse, names)
+        return _text_derived(e.body, names, base) or _text_derived(e.orelse, names, base)
+    if isinstance(e, ast.BinOp) and isinstance(e.op, (ast.Add, ast.Mod, ast.Mult)):
+        return _text_derived(e.left, names, base) or _text_derived(e.right, names, base)
+    if isinstance(e, ast.JoinedStr):
+        return any(_text_derived(v, names, base) for v in e.values)
+    if isinstance(e, ast.FormattedValue):
+        return _text_derived(e.value, names, base)
+    if isinstance(e, (ast.Tuple, ast.List, ast.Set)):
+        return any(_text_derived(v, names, base) for v in e.elts)
+    if isinstance(e, ast.Starred):
+        return _text_derived(e.value, names, base)
+    if isinstance(e, (ast.GeneratorExp, ast.ListComp, ast.SetComp)):
+        return _text_derived(e.elt, names, base) or any(_text_derived(g.iter, names, base) for g in e.generators)
     return False
 
 
-def _folds_in(e, names: Set[str]) -> List[str]:
-    """case folds applied (anywhere below `e`, comprehensions included) to text derived from `names`"""
-    return sorted({n.func.attr for n in ast.walk(e) if isinstance(n, ast.Call) and isinstance(n.func, ast.Attribute)
-                   and n.func.attr in CASE_FOLDS and _text_derived(n.func.value, names)})
+_PIECE_CALLS = ('str', 'map', 'tuple', 'list', 'reversed', 'sorted', 'filter', 'iter', 'next')
+
+
+def _direct_folds(e, names: Set[str]) -> Set[str]:
+    """case folds applied (anywhere below `e`, comprehensions included) to text derived from `names`: `x.lower()`,
+    `str.lower(x)`, `map(str.lower, xs)`"""
+    out: Set[str] = set()
+    for n in ast.walk(e):
+        if not isinstance(n, ast.Call):
+            continue
+        f = n.func
+        if isinstance(f, ast.Attribute) and f.attr in CASE_FOLDS:
+            if isinstance(f.value, ast.Name) and f.value.id == 'str' and f.value.id not in names:
+                if n.args and _text_derived(n.args[0], names):
+                    out.add(f.attr)
+            elif _text_derived(f.value, names):
+                out.add(f.attr)
+        elif isinstance(f, ast.Name) and f.id == 'map' and len(n.args) >= 2 and isinstance(n.args[0], ast.Attribute) \
+                and n.args[0].attr in CASE_FOLDS and isinstance(n.args[0].value, ast.Name) and n.args[0].value.id == 'str' \
+                and any(_text_derived(a, names) for a in n.args[1:]):
+            out.add(n.args[0].attr)
+    return out
+
+
+def _bindings_from(fnode):
+    """(names bound, expression they are bound from) for every binding construct whose pieces come from one expression:
+    assignments (tuple unpacking included), walrus, for-loops, comprehension clauses"""
+    for n in walk_self(fnode):
+        if isinstance(n, ast.Assign):
+            yield {x.id for t in n.targets for x in ast.walk(t) if isinstance(x, ast.Name) and isinstance(x.ctx, ast.Store)}, n.value
+        elif isinstance(n, ast.AnnAssign) and n.value is not None and isinstance(n.target, ast.Name):
+            yield {n.target.id}, n.value
+        elif isinstance(n, ast.NamedExpr) and isinstance(n.target, ast.Name):
+            yield {n.target.id}, n.value
+        elif isinstance(n, (ast.For, ast.AsyncFor)):
+            yield {x.id for x in ast.walk(n.target) if isinstance(x, ast.Name)}, n.iter
+        elif isinstance(n, ast.comprehension):
+            yield {x.id for x in ast.walk(n.target) if isinstance(x, ast.Name)}, n.iter
 
 
 def _derived_closure(fnode, name: str) -> Set[str]:
     out = {name}
     changed = True
+    binds = list(_bindings_from(fnode))
     while changed:
         changed = False
-        for n in walk_self(fnode):
-            if isinstance(n, ast.Assign) and _text_derived(n.value, out):
-                for t in n.targets:
-                    if isinstance(t, ast.Name) and t.id not in out:
-                        out.add(t.id)
-                        changed = True
+        for tgts, v in binds:
+            if not tgts <= out and _text_derived(v, out):
+                out |= tgts
+                changed = True
     return out
+
+
+class _Folds:
+    """The case folds an expression applies to text derived from `base` inside one function - directly, or through the
+    locals it reads (`low = mt.lower(); ... self.data[low]`).  Rebindings of `base` itself are not followed through the
+    name: they are the constructs the rule reports."""
+
+    def __init__(self, fnode, base: str, extra: Set[str] = frozenset()):
+        self.base = base
+        self.names = _derived_closure(fnode, base)
+        self.src = self.names | set(extra)
+        binds = [(t - {base}, v) for t, v in _bindings_from(fnode)]
+        self.of: Dict[str, Set[str]] = {n: set() for n in self.names}
+        changed = True
+        while changed:
+            changed = False
+            for tgts, v in binds:
+                tg = tgts & self.names
+                if not tg:
+                    continue
+                fs = self.folds(v)
+                for t in tg:
+                    if not fs <= self.of[t]:
+                        self.of[t] |= fs
+                        changed = True
+
+    def derived(self, e) -> bool:
+        return _text_derived(e, self.src)
+
+    def folds(self, e) -> Set[str]:
+        out = _direct_folds(e, self.src)
+        for n in ast.walk(e):
+            if isinstance(n, ast.Name) and isinstance(n.ctx, ast.Load) and n.id != self.base and n.id in self.of:
+                out |= self.of[n.id]
+        return out
+
+
+def _folds_in(e, names: Set[str]) -> List[str]:
+    return sorted(_direct_folds(e, names))
+
+
+# R4 (a) keeps its facts ("not empty", "not */*") across a rebinding of the requested type only when the new value is the
+# old text up to letter case: a chain of case folds, or the complete re-assembly of one partition()/rpartition() of it
+# (or of the two halves of one slice point) with any pieces folded.  Whether folding is RIGHT is R9's verdict.
+def _strip_folds(e):
+    e = _unwrap_cast(e)
+    while isinstance(e, ast.Call) and isinstance(e.func, ast.Attribute) and e.func.attr in CASE_FOLDS and not e.args and not e.keywords:
+        e = _unwrap_cast(e.func.value)
+    return e
+
+
+def _concat_pieces(e) -> Optional[list]:
+    e = _unwrap_cast(e)
+    if isinstance(e, ast.BinOp) and isinstance(e.op, ast.Add):
+        l, r = _concat_pieces(e.left), _concat_pieces(e.right)
+        return None if l is None or r is None else l + r
+    if isinstance(e, ast.JoinedStr):
+        out = []
+        for v in e.values:
+            if isinstance(v, ast.Constant):
+                if v.value != '':
+                    return None
+            elif isinstance(v, ast.FormattedValue) and v.conversion == -1 and v.format_spec is None:
+                out.append(v.value)
+            else:
+                return None
+        return out
+    if isinstance(e, ast.Call) and isinstance(e.func, ast.Attribute) and e.func.attr == 'join' and isinstance(e.func.value, ast.Constant) \
+            and e.func.value.value == '' and len(e.args) == 1 and not e.keywords and isinstance(e.args[0], (ast.Tuple, ast.List)) \
+            and not any(isinstance(x, ast.Starred) for x in e.args[0].elts):
+        return list(e.args[0].elts)
+    return [e]
+
+
+def _same_text_modulo_case(fnode, stmt: ast.Assign, mt: str) -> bool:
+    pieces = _concat_pieces(stmt.value)
+    if not pieces:
+        return False
+    pieces = [_strip_folds(x) for x in pieces]
+
+    def is_mt(e):
+        return isinstance(e, ast.Name) and e.id == mt
+
+    if len(pieces) == 1:
+        return is_mt(pieces[0])
+    if len(pieces) == 2 and all(isinstance(x, ast.Subscript) and is_mt(_strip_folds(x.value)) and isinstance(x.slice, ast.Slice)
+                                and x.slice.step is None for x in pieces):
+        a, b = pieces[0].slice, pieces[1].slice
+        return (a.lower is None and b.upper is None and a.upper is not None and b.lower is not None
+                and isinstance(a.upper, (ast.Name, ast.Constant)) and unparse(a.upper) == unparse(b.lower))
+    if len(pieces) == 3 and all(isinstance(x, ast.Name) for x in pieces):
+        ids = [x.id for x in pieces]
+        if len(set(ids)) != 3 or mt in ids:
+            return False
+        binds = [_assignments(fnode, i) for i in ids]
+        if any(len(b) != 1 for b in binds) or len({id(b[0][0]) for b in binds}) != 1:
+            return False
+        src = binds[0][0][0]
+        if not (isinstance(src, ast.Assign) and len(src.targets) == 1 and isinstance(src.targets[0], (ast.Tuple, ast.List))
+                and [getattr(t, 'id', None) for t in src.targets[0].elts] == ids):
+            return False
+        v = _unwrap_cast(src.value)
+        if not (isinstance(v, ast.Call) and isinstance(v.func, ast.Attribute) and v.func.attr in ('partition', 'rpartition')
+                and is_mt(_strip_folds(v.func.value)) and len(v.args) == 1 and not v.keywords
+                and isinstance(v.args[0], ast.Constant) and isinstance(v.args[0].value, str) and v.args[0].value):
+            return False
+        # the pieces are cut from the value the name has at the rebinding: same block, nothing binds the name in between
+        for n in ast.walk(fnode):
+            for field in ('body', 'orelse', 'finalbody'):
+                block = getattr(n, field, None)
+                if isinstance(block, list) and any(x is src for x in block) and any(x is stmt for x in block):
+                    i, j = [k for k, x in enumerate(block) if x is src][0], [k for k, x in enumerate(block) if x is stmt][0]
+                    return i < j and not any(isinstance(x, ast.Name) and x.id == mt and isinstance(x.ctx, ast.Store)
+                                             for between in block[i + 1:j] for x in ast.walk(between))
+        return False
+    return False
 
 
 def r9_same_case_form(run):
@@ -3577,27 +3753,28 @@ def r9_same_case_form(run):
     if len(params) != 3:
         raise UnknownIdiom('resolver takes %s' % params)
     mt, dflt, _ = params
-    names = _derived_closure(res.node, mt)
+    F = _Folds(res.node, mt, {dflt})
+    names = F.names
 
     # --- requested side
     req: List[Tuple[ast.AST, List[str]]] = []          # (construct, folds)
+    # (1) rebindings of the requested type.  The default fallback is R4's; any other new value has to be BUILT from the old
+    #     one (pieces of a partition / split / slices, concatenated, formatted or joined): a case fold on ANY piece is a fold
+    #     of the requested side.  A rebinding without a fold, or one this rule cannot read, stays an unknown idiom.
+    for stmt, v in _assignments(res.node, mt):
+        if isinstance(stmt, ast.Assign) and isinstance(v, ast.Name) and v.id == dflt:
+            continue                                       # the default fallback (R4)
+        folds = sorted(F.folds(v)) if isinstance(stmt, (ast.Assign, ast.AnnAssign)) and v is not None and F.derived(v) else []
+        if not folds:
+            raise UnknownIdiom('resolver: requested type rebound by %s' % short(stmt, 80))
+        req.append((stmt, folds))
+    # (2) the operands of the two comparisons
     n_ops = 0
     for n in walk_self(res.node):
-        if isinstance(n, (ast.Assign, ast.AnnAssign, ast.AugAssign)):
-            tgts = n.targets if isinstance(n, ast.Assign) else [n.target]
-            if not any(isinstance(t, ast.Name) and t.id == mt for t in tgts):
-                continue
-            v = getattr(n, 'value', None)
-            if isinstance(n, ast.Assign) and isinstance(v, ast.Name) and v.id == dflt:
-                continue                                   # the default fallback (R4)
-            folds = _folds_in(v, names | {dflt}) if isinstance(n, ast.Assign) and v is not None and _text_derived(v, names | {dflt}) else []
-            if not folds:
-                raise UnknownIdiom('resolver: requested type rebound by %s' % short(n, 80))
-            req.append((n, folds))
-        elif isinstance(n, ast.Subscript) and isinstance(n.ctx, ast.Load) and _is_selfdata(n.value) and _text_derived(n.slice, names):
+        if isinstance(n, ast.Subscript) and isinstance(n.ctx, ast.Load) and _is_selfdata(n.value) and _text_derived(n.slice, names):
             n_ops += 1
-            if _folds_in(n.slice, names):
-                req.append((n, _folds_in(n.slice, names)))
+            if F.folds(n.slice):
+                req.append((n, sorted(F.folds(n.slice))))
         elif isinstance(n, ast.Call):
             t = p.resolve_callable(res, n.func)
             if isinstance(t, Func) and t.qual in (BRIDGE, MEDIATYPES + '.best_match'):
@@ -3607,13 +3784,13 @@ def r9_same_case_form(run):
                             raise UnknownIdiom('resolver: the keys are case-folded only for the comparison in %s' % short(n, 80))
                     elif _text_derived(a, names):
                         n_ops += 1
-                        if _folds_in(a, names):
-                            req.append((n, _folds_in(a, names)))
+                        if F.folds(a):
+                            req.append((n, sorted(F.folds(a))))
             elif isinstance(n.func, ast.Attribute) and n.func.attr == 'get' and _is_selfdata(n.func.value) and n.args \
                     and _text_derived(n.args[0], names):
                 n_ops += 1
-                if _folds_in(n.args[0], names):
-                    req.append((n, _folds_in(n.args[0], names)))
+                if F.folds(n.args[0]):
+                    req.append((n, sorted(F.folds(n.args[0]))))
     if n_ops < 2:
         raise AnchorError('resolver: exact lookup and best-match call on the requested type not found (%d)' % n_ops)
 
@@ -3666,6 +3843,311 @@ def r9_same_case_form(run):
         raise UnknownIdiom('resolver / __setitem__: case folds %s vs %s' % (f_req, f_key))
 
 
+# ---------------------------------------------------------------------------
+# R10 client_accepts() / client_prefers() answer by NEGOTIATION; a shortcut
+# around it is an equality of the whole header (added after seeded change
+# s5-c11-2)
+# ---------------------------------------------------------------------------
+#
+# What the client accepts is what mediatypes.quality() / best_match() say about
+# the whole Accept header: the most specific range decides, a q=0 range
+# excludes, an unparsable header accepts nothing.  A fast path that answers
+# without that call is right only where the answer cannot depend on the rest of
+# the header - when the WHOLE header value EQUALS the requested type or the
+# catch-all '*/*'.  "The header contains */*" (`'*/*' in accept`, startswith /
+# endswith / find / split / a slice / a regular expression - frozen family
+# PARTIAL_TEXT_TESTS) looks like it and is not: 'text/csv;q=0, */*' and
+# '*/*;q=0' contain the catch-all and refuse the type.  Decided, for every value
+# the two methods can hand out (returns, the arms of conditional expressions,
+# the disjuncts of `a or b`, the values of a returned local):
+#   * a value computed from the negotiation call: the call receives (requested
+#     type(s), whole Accept value) in that order; client_accepts() compares the
+#     quality strictly with zero, client_prefers() hands the choice out as is;
+#   * a positive answer that is not: some test on the way to it (dominating
+#     branch outcome, conditional-expression test, earlier disjunct)
+#     establishes the equality; otherwise a test of the PARTIAL family deciding
+#     it is the violation, and any other shape is an unknown idiom;
+#   * a negative answer that is not (outside the exception handlers - R5):
+#     a PARTIAL test deciding it is a violation; anything else is not this
+#     rule's business.
+
+NEGOTIATORS = {'client_accepts': MEDIATYPES + '.quality', 'client_prefers': MEDIATYPES + '.best_match'}
+ACCEPT_ATTR = 'accept'
+ANY_TYPE = '*/*'
+PARTIAL_TEXT_TESTS = ('startswith', 'endswith', 'find', 'rfind', 'index', 'rindex', 'count', '__contains__', 'split', 'rsplit',
+                      'partition', 'rpartition', 'splitlines')
+PARTIAL_TEXT_MODULES = ('re', 'fnmatch')
+_R10_WITNESS = "Accept: 'text/csv;q=0, */*' -> client_accepts('text/csv') is True although the type is refused; Accept: '*/*;q=0' accepts " \
+               'everything; client_accepts() disagrees with client_prefers() / quality() on the same header'
+
+
+class _AcceptText:
+    """Where the Accept header text is in one method: the attribute read, the locals that ARE it, the locals built from it,
+    and the locals that are PIECES of it."""
+
+    def __init__(self, p, f: Func):
+        self.p, self.f = p, f
+        binds = list(_bindings_from(f.node))
+        self.whole: Set[str] = set()
+        changed = True
+        while changed:
+            changed = False
+            for n in walk_self(f.node):
+                if isinstance(n, ast.Assign) and len(n.targets) == 1 and isinstance(n.targets[0], ast.Name) \
+                        and n.targets[0].id not in self.whole and self.is_whole(n.value):
+                    self.whole.add(n.targets[0].id)
+                    changed = True
+        for n in sorted(self.whole):
+            if len(_assignments(f.node, n)) != 1:
+                raise UnknownIdiom('%s: %s is bound to the Accept value and to something else' % (f.qual, n))
+        self.names: Set[str] = set(self.whole)
+        changed = True
+        while changed:
+            changed = False
+            for tgts, v in binds:
+                if not tgts <= self.names and self.derived(v):
+                    self.names |= tgts
+                    changed = True
+        self.pieces: Set[str] = set()
+        loops = {id(n.iter) for n in ast.walk(f.node) if isinstance(n, (ast.For, ast.AsyncFor, ast.comprehension))}
+        changed = True
+        while changed:
+            changed = False
+            for tgts, v in binds:
+                if tgts <= self.pieces or not self.derived(v):
+                    continue
+                if id(v) in loops or self.partial_constructs(v):
+                    self.pieces |= tgts - self.whole
+                    changed = True
+
+    def is_attr(self, e) -> bool:
+        return is_self_attr(_unwrap_cast(e), ACCEPT_ATTR)
+
+    def is_whole(self, e) -> bool:
+        e = _unwrap_cast(e)
+        return self.is_attr(e) or (isinstance(e, ast.Name) and e.id in self.whole)
+
+    def derived(self, e) -> bool:
+        return _text_derived(e, self.names, self.is_attr)
+
+    def partial_constructs(self, e) -> List[ast.AST]:
+        """the constructs below `e` that look at a PART of the Accept text"""
+        out = []
+        for n in ast.walk(e):
+            if isinstance(n, ast.Compare):
+                left = n.left
+                for op, right in zip(n.ops, n.comparators):
+                    if isinstance(op, (ast.In, ast.NotIn)) and not isinstance(_unwrap_cast(right), (ast.Tuple, ast.List, ast.Set)) \
+                            and self.derived(right):
+                        out.append(n)
+                    left = right
+            elif isinstance(n, ast.Call) and isinstance(n.func, ast.Attribute) and n.func.attr in PARTIAL_TEXT_TESTS and self.derived(n.func.value):
+                out.append(n)
+            elif isinstance(n, ast.Call) and (dotted(n.func) or '').split('.')[0] in PARTIAL_TEXT_MODULES \
+                    and any(self.derived(a) for a in n.args):
+                out.append(n)
+            elif isinstance(n, ast.Subscript) and self.derived(n.value):
+                out.append(n)
+            elif isinstance(n, ast.Name) and isinstance(n.ctx, ast.Load) and n.id in self.pieces:
+                out.append(n)
+        return out
+
+
+def _negotiated_answers(run, p, f: Func, name: str, neg_qual: str):
+    cfg = cfg_of(f, p)
+    run.use_cfg(cfg)
+    roles = _Roles(f)
+    params = _param_names(f)
+    if len(params) != 1:
+        raise UnknownIdiom('%s takes %s' % (f.qual, params))
+    wanted = params[0]
+    A = _AcceptText(p, f)
+    if not any(A.is_attr(n) for n in walk_self(f.node)):
+        raise AnchorError('%s: self.%s is not read' % (f.qual, ACCEPT_ATTR))
+    callee = p.func(neg_qual)
+    calls = [c for c in walk_self(f.node) if isinstance(c, ast.Call) and isinstance(p.resolve_callable(f, c.func), Func)
+             and p.resolve_callable(f, c.func).qual == neg_qual]
+    if not calls:
+        raise AnchorError('%s: no call of %s' % (f.qual, neg_qual))
+    neg_names = {n for n in local_names_bound(f) if _assignments(f.node, n)
+                 and all(v is not None and any(x is c for x in ast.walk(v) for c in calls) for _, v in _assignments(f.node, n))}
+
+    def is_neg(e) -> bool:
+        return any(e is c for c in calls) or (isinstance(e, ast.Name) and e.id in neg_names)
+
+    def negotiated(e) -> bool:
+        return any(is_neg(x) for x in ast.walk(e))
+
+    # --- the negotiation call is wired (requested type(s), whole Accept value)
+    cparams = _param_names(callee)
+    if len(cparams) != 2:
+        raise UnknownIdiom('%s takes %s' % (callee.qual, cparams))
+    for c in calls:
+        slots: Dict[int, ast.AST] = dict(enumerate(c.args))
+        for k in c.keywords:
+            if k.arg not in cparams or cparams.index(k.arg) in slots:
+                raise UnknownIdiom('%s: arguments of %s' % (f.qual, short(c, 80)))
+            slots[cparams.index(k.arg)] = k.value
+        if sorted(slots) != [0, 1] or any(isinstance(a, ast.Starred) for a in slots.values()):
+            raise UnknownIdiom('%s: arguments of %s' % (f.qual, short(c, 80)))
+
+        def is_wanted(e):
+            e = _unwrap_cast(e)
+            return isinstance(e, ast.Name) and e.id == wanted and not _assignments(f.node, wanted)
+
+        straight = is_wanted(slots[0]) and A.is_whole(slots[1])
+        swapped = is_wanted(slots[1]) and A.is_whole(slots[0])
+        if not straight and not swapped:
+            raise UnknownIdiom('%s: arguments of %s' % (f.qual, short(c, 80)))
+        run.check(straight, '%s(): %s() receives the requested media type(s) and the whole Accept header value, in that order' % (
+            name, callee.name), f, c, runtime_witness='the Accept header is parsed as a media type and the requested type as the header')
+
+    # --- every value the method can hand out
+    def leaves(e, stmt, conds, depth=0):
+        e = _unwrap_cast(e)
+        if depth > 8:
+            raise UnknownIdiom('%s: value %s' % (f.qual, short(e, 60)))
+        if isinstance(e, ast.IfExp):
+            yield from leaves(e.body, stmt, conds + [(e.test, True)], depth + 1)
+            yield from leaves(e.orelse, stmt, conds + [(e.test, False)], depth + 1)
+        elif isinstance(e, ast.BoolOp) and isinstance(e.op, ast.Or):
+            for i, v in enumerate(e.values):
+                prior = [(x, False) for x in e.values[:i]]
+                if i < len(e.values) - 1:
+                    for leaf, st2, cs in leaves(v, stmt, conds + prior, depth + 1):
+                        yield leaf, st2, cs + [(leaf, True)]        # handed out only when truthy
+                else:
+                    yield from leaves(v, stmt, conds + prior, depth + 1)
+        elif isinstance(e, ast.Name) and e.id not in neg_names and _assignments(f.node, e.id) \
+                and all(v2 is not None and isinstance(s2, (ast.Assign, ast.AnnAssign)) for s2, v2 in _assignments(f.node, e.id)):
+            for s2, v2 in _assignments(f.node, e.id):
+                yield from leaves(v2, s2, conds, depth + 1)
+        else:
+            yield e, stmt, conds
+
+    def eq_target(e) -> bool:
+        e = _unwrap_cast(e)
+        if isinstance(e, ast.Name) and e.id == wanted and not _assignments(f.node, wanted):
+            return name == 'client_accepts'
+        return name == 'client_accepts' and p.fold(f.module, e, f.cls, f) == ANY_TYPE
+
+    def eq_atom(e) -> Optional[bool]:
+        """True: `e` states whole-Accept == an allowed target; False: it states the negation; None: neither"""
+        if isinstance(e, ast.Compare) and len(e.ops) == 1:
+            l, r, op = e.left, e.comparators[0], e.ops[0]
+            if isinstance(op, (ast.Eq, ast.NotEq)) and ((A.is_whole(l) and eq_target(r)) or (eq_target(l) and A.is_whole(r))):
+                return isinstance(op, ast.Eq)
+            r = _unwrap_cast(r)
+            if isinstance(op, (ast.In, ast.NotIn)) and A.is_whole(l) and isinstance(r, (ast.Tuple, ast.List, ast.Set)) and r.elts \
+                    and all(eq_target(x) for x in r.elts):
+                return isinstance(op, ast.In)
+        return None
+
+    def establishes(e, truth: bool) -> bool:
+        a = eq_atom(e)
+        if a is not None:
+            return a == truth
+        if isinstance(e, ast.UnaryOp) and isinstance(e.op, ast.Not):
+            return establishes(e.operand, not truth)
+        if isinstance(e, ast.BoolOp):
+            every = (isinstance(e.op, ast.Or) and truth) or (isinstance(e.op, ast.And) and not truth)
+            rs = [establishes(v, truth) for v in e.values]
+            return all(rs) if every else any(rs)
+        return False
+
+    handlers = [n.id for n in cfg.live_nodes() if n.kind == 'handler']
+    n_partial = 0
+    seen: Set[Tuple[int, str]] = set()
+    for r in _returns(f):
+        if r.value is None:
+            raise UnknownIdiom('%s: bare return' % f.qual)
+        for leaf, stmt, conds in leaves(r.value, r, []):
+            nids = cfg.nodes_for(stmt)
+            if not nids:
+                continue                                       # dead code
+            if handlers and all(flow.dominated_by_nodes(cfg, nid, handlers) for nid in nids):
+                continue                                       # the answer for an unparsable header: R5
+            key = (id(stmt), unparse(leaf) + repr([(unparse(t), v) for t, v in conds]))
+            if key in seen:
+                continue
+            seen.add(key)
+            if negotiated(leaf):
+                if name == 'client_accepts':
+                    while isinstance(leaf, ast.Call) and isinstance(leaf.func, ast.Name) and leaf.func.id == 'bool' and len(leaf.args) == 1 \
+                            and not leaf.keywords:
+                        leaf = leaf.args[0]
+                    kind = _positivity(leaf, True, is_neg)
+                    if kind == 'unknown':
+                        raise UnknownIdiom('%s: the quality is turned into the answer by %s' % (f.qual, short(leaf, 60)))
+                    run.check(kind == 'strict', 'client_accepts(): the negotiated answer is "the quality is not zero" (strict)', f, leaf,
+                              where=f.loc(stmt), runtime_witness="Accept: 'text/plain;q=0' -> client_accepts('text/plain') is True")
+                else:
+                    if not is_neg(leaf):
+                        raise UnknownIdiom('%s: the negotiated choice is rewritten by %s' % (f.qual, short(leaf, 60)))
+                    run.ok('client_prefers(): the negotiated choice is handed out as it is', f.loc(stmt), leaf)
+                continue
+            if isinstance(leaf, ast.Constant):
+                outcomes = [bool(leaf.value)]
+            elif name == 'client_accepts':
+                outcomes = [True, False]                       # a boolean expression that IS the answer
+                if conds and conds[-1][0] is leaf:
+                    outcomes = [True]                          # a disjunct: handed out only when true
+            else:
+                outcomes = [True]
+            for positive in outcomes:
+                cs = list(conds)
+                if not isinstance(leaf, ast.Constant) and name == 'client_accepts' and not (conds and conds[-1][0] is leaf):
+                    cs.append((leaf, positive))
+                dom = []
+                for n in cfg.live_nodes():
+                    if n.kind != 'test':
+                        continue
+                    for (y, l) in cfg.succ[n.id]:
+                        if l in ('T', 'F') and all(flow.dominated_by_edge(cfg, nid, (n.id, y, l)) for nid in nids):
+                            dom.append((n.ast, l == 'T'))
+                deciding = cs + [(t, v) for t, v, _ in _deciding_tests(cfg, roles, stmt, nids)]
+                partial = [(t, v) for t, v in deciding if A.partial_constructs(t)]
+                what = '%s(): %s answer given without asking %s() is %s by a test on a part of the header text (%s)' % (
+                    name, 'a positive' if positive else 'a negative', callee.name,
+                    "decided by the EQUALITY of the whole Accept value with the requested type or '*/*' - never"
+                    if name == 'client_accepts' and positive else 'never decided', '/'.join(PARTIAL_TEXT_TESTS[:4]) + '/in/...')
+                if positive and any(establishes(t, v) for t, v in cs + dom):
+                    run.ok(what, f.loc(stmt), stmt if isinstance(leaf, ast.Constant) else leaf)
+                    continue
+                if partial:
+                    for t, v in partial:
+                        n_partial += 1
+                        run.fail(what, f, t, where=f.loc(t),
+                                 witness=['%s is handed out when %s is %s' % (short(leaf, 40), short(t, 60), str(v).lower())] +
+                                         ['reads a part of the header: %s' % short(x, 60) for x in A.partial_constructs(t)[:3]],
+                                 runtime_witness=_R10_WITNESS)
+                    continue
+                if positive:
+                    raise UnknownIdiom('%s: %s is answered without the negotiation under %s' % (
+                        f.qual, short(leaf, 40), ' and '.join('%s is %s' % (short(t, 40), str(v).lower()) for t, v in deciding) or 'no test'))
+    if not n_partial:
+        run.ok('%s(): no answer is decided by a test on a part of the Accept header text' % name, f.loc())
+
+
+def local_names_bound(f: Func) -> Set[str]:
+    return {n.id for n in walk_self(f.node) if isinstance(n, ast.Name) and isinstance(n.ctx, ast.Store)}
+
+
+def r10_negotiated_answers(run):
+    p = run.project
+    done: Set[str] = set()
+    for cq in ('falcon.request.Request', 'falcon.asgi.request.Request'):
+        p.cls(cq)
+        for name in sorted(NEGOTIATORS):
+            f = p.lookup_method(cq, name)
+            if f is None:
+                raise AnchorError('%s.%s not found' % (cq, name))
+            if f.qual in done:
+                continue
+            done.add(f.qual)
+            _negotiated_answers(run, p, f, name, NEGOTIATORS[name])
+
+
 class _ModFunc:
     """minimal Func stand-in for module-level resolution"""
 
@@ -3683,7 +4165,7 @@ class _ModFunc:
 def check(run):
     run.assume('E5: str/bytes/re/dict.get methods and in-range subscripts are total; unresolved external callees do not raise unless tabled')
     run.assume('functools.lru_cache wrappers re-raise exactly what the wrapped function raises')
-    run.rule('R1', _safe(r1_score_order), 'match_score tuple order by def-use role on every score return, sentinel, quality()/best_match() wiring', floor=17)
+    run.rule('R1', _safe(r1_score_order), 'match_score tuple order by def-use role on every score return, type/subtype table on the finite domain, sentinel, quality()/best_match() wiring', floor=20)
     run.rule('R2', _safe(r2_documented_errors), 'only InvalidMediaType/InvalidMediaRange escape quality()/best_match(); q validated', floor=4)
     run.rule('R3', _safe(r3_cache_coherence), 'every direct writer of Handlers.data in the MRO clears the resolver cache (bulk writers on exceptional exits too); resolver per instance', floor=20)
     run.rule('R4', _safe(r4_resolution), 'resolver: default fallback, exact first, best match over current keys, 415 iff unmatched and asked', floor=8)
@@ -3693,4 +4175,6 @@ def check(run):
              'selection of _parse_media_ranges()/quality() do not read it (shared with C04)', floor=5)
     run.rule('R9', _safe(r9_same_case_form), 'the resolver compares the requested type with the registered keys in one case form: no one-sided '
              'lower()/upper()/casefold() (shared with C12)', floor=2)
+    run.rule('R10', _safe(r10_negotiated_answers), 'client_accepts()/client_prefers() answer by negotiation over the whole Accept header; a shortcut '
+             'is guarded by the equality of the whole header with the requested type or */*, never by a test on a part of its text', floor=6)
     run.rule('R7', _safe(r7_resolve_by_content_type), 'get_media()/render_body() of both flavours resolve by the content type itself and the options default', floor=12)
